@@ -46,7 +46,7 @@ PROPS = {
     ),
     'C05': dict(
         comps=['order', 'api_order', 'panic_order'],
-        theorems=['C05_order', 'C05_observers', 'C05_peeks', 'C05_touch_pointer', 'C05_remove_pointer', 'C05_insert_pointer', 'C05_realloc_pointer'],
+        theorems=['C05_order', 'C05_observers', 'C05_peeks', 'C05_touch_pointer', 'C05_remove_pointer', 'C05_insert_pointer', 'C05_realloc_pointer', 'C05_touch_refines', 'C05_remove_refines', 'C05_lru_is_head'],
         assumptions=['iteration forward and reversed, keys(), values(), peek_lru/peek_mru and Debug are cross-checked against the pointer walk of the hook after every step (flag api_order)'],
     ),
     'C06': dict(
